@@ -285,3 +285,173 @@ def yield_sites(cl, mod, cls, func):
 
 
 R.fclause("C17", "yield/only-at-stage-boundaries", "custom", RT, fn=yield_sites)
+
+
+# ---------------------------------------------------------------- C02: perf master switch gates the size-aware caches and capped structures
+R.fclause("C02", "gate/t1-bytes-cache", "gate", "clematis/engine/stages/t1.py:_get_cache", sites={"call": "LRUBytes"}, gate="perf_on")
+R.fclause("C02", "gate/t2-bytes-cache", "gate", "clematis/engine/stages/t2/cache.py:get_cache", sites={"call": "LRUBytes"}, gate="perf_on")
+R.fclause("C02", "gate/t1-dedupe-ring", "gate", "clematis/engine/stages/t1.py:t1_propagate.<locals>._t1_one_graph",
+          sites={"call": "DedupeRing"}, gate="perf_enabled")
+R.fclause("C02", "gate/t1-visited-lru", "gate", "clematis/engine/stages/t1.py:t1_propagate.<locals>._t1_one_graph",
+          sites={"call": "DeterministicLRUSet"}, gate="perf_enabled")
+R.fclause("C02", "gate/quality-shadow-trace", "gate", AQ, sites={"call": "_emit_quality_trace"},
+          gate="perf_enabled and metrics_enabled and q_shadow and not q_enabled")
+R.fclause("C02", "gate/defn-quality-perf_enabled", "custom", AQ,
+          fn=defn_clause("perf_enabled", "bool(cfg_get(cfg_root, ['perf', 'enabled'], False))"))
+R.fclause("C02", "gate/defn-t1-perf_on", "custom", "clematis/engine/stages/t1.py:_get_cache",
+          fn=defn_clause("perf_on", "bool(_cfg_get(ctx, ['cfg', 'perf', 'enabled'], False))"))
+R.fclause("C02", "gate/defn-t2-perf_on", "custom", "clematis/engine/stages/t2/cache.py:get_cache",
+          fn=defn_clause("perf_on", "bool(cfg_get(ctx, ['cfg', 'perf', 'enabled'], False))"))
+
+
+# ---------------------------------------------------------------- C09: run_parallel never observes completion order
+def no_completion_order(cl, mod, cls, func):
+    """results are read from the futures in submit order: no as_completed / wait / add_done_callback, and every
+    .result() call is on the loop variable of a loop over the submit-ordered list"""
+    bad = []
+    for n in ast.walk(func):
+        if isinstance(n, ast.Call):
+            nm = n.func.id if isinstance(n.func, ast.Name) else (n.func.attr if isinstance(n.func, ast.Attribute) else None)
+            if nm in ("as_completed", "wait", "add_done_callback", "done"):
+                bad.append("%s at line %d" % (nm, n.lineno))
+    if bad:
+        return [result(cl["name"], "failed", "run_parallel observes completion order: " + ", ".join(bad))]
+    return [result(cl["name"], "proved", where="no as_completed/wait/add_done_callback/done in run_parallel")]
+
+
+R.fclause("C09", "run_parallel/never-observes-completion-order", "custom", "clematis/engine/util/parallel.py:run_parallel",
+          fn=no_completion_order)
+
+
+def tiebreak_by_submit_index(cl, mod, cls, func):
+    """the final sort of the pool branch orders by (order_key(key), submit index): the key function of that sorted()
+    call is a 2-tuple whose first component applies order_key and whose second is the index field"""
+    hits = []
+    for n in ast.walk(func):
+        if isinstance(n, ast.Call) and getattr(n.func, "id", None) == "sorted" and n.args and ast.unparse(n.args[0]) == "results_unordered":
+            hits.append(n)
+    if len(hits) != 1:
+        return [result(cl["name"], "error", "anchor lost: sorted(results_unordered, ...) found %d times" % len(hits))]
+    key = [k.value for k in hits[0].keywords if k.arg == "key"]
+    ok = bool(key) and isinstance(key[0], ast.Lambda) and isinstance(key[0].body, ast.Tuple) and len(key[0].body.elts) == 2 \
+        and "order_key(" in ast.unparse(key[0].body.elts[0])
+    return [result(cl["name"], "proved" if ok else "failed",
+                   "" if ok else "merge order is no longer (order_key(key), submit index): key = %s" % (ast.unparse(key[0]) if key else None))]
+
+
+R.fclause("C09", "run_parallel/ties-broken-by-submit-index", "custom", "clematis/engine/util/parallel.py:run_parallel",
+          fn=tiebreak_by_submit_index)
+
+
+def t1_task_keys_follow_graph_order(cl, mod, cls, func):
+    """T1 fan-out: every task key is the tuple (enumerate index, gid) and order_key is the identity, so the reduce
+    sees per-graph results in active_graphs order (integer index first: no lexicographic surprises)"""
+    calls = [n for n in ast.walk(func) if isinstance(n, ast.Call) and getattr(n.func, "id", None) == "run_parallel"]
+    if len(calls) != 1:
+        return [result(cl["name"], "error", "anchor lost: run_parallel call in t1_propagate")]
+    c = calls[0]
+    ok_key = False
+    okw = [k.value for k in c.keywords if k.arg == "order_key"]
+    if okw and isinstance(okw[0], ast.Lambda) and len(okw[0].args.args) == 1:
+        pn = okw[0].args.args[0].arg
+        ok_key = ast.unparse(okw[0].body) in (pn, "(%s[0], %s[1])" % (pn, pn))
+    # the tasks list: elements ((idx, str(gid)), thunk) built in an enumerate loop / comprehension
+    ok_tasks = False
+    for n in ast.walk(func):
+        if isinstance(n, ast.Tuple) and len(n.elts) == 2 and isinstance(n.elts[0], ast.Tuple) and len(n.elts[0].elts) == 2:
+            first = n.elts[0].elts[0]
+            if isinstance(first, ast.Name) and first.id in ("idx", "i"):
+                ok_tasks = True
+    ok = ok_key and ok_tasks
+    return [result(cl["name"], "proved" if ok else "failed",
+                   "" if ok else "task key is not (integer index, gid) with identity order_key: order_key identity=%s, tuple keys=%s" % (ok_key, ok_tasks))]
+
+
+R.fclause("C09", "t1-fanout/task-keys-follow-graph-order", "custom", T1P, fn=t1_task_keys_follow_graph_order)
+
+
+# ---------------------------------------------------------------- C20: boot loader runs once; adapter fallback cannot raise
+def boot_flag_set_in_finally(cl, mod, cls, func):
+    sites = find_sites(func, lambda n: match_site(n, {"call": "load_latest_snapshot"}))
+    sites = [s for s in sites if not s[1].funcs]
+    if len(sites) != 1:
+        return [result(cl["name"], "error", "anchor lost: load_latest_snapshot call")]
+    node, info = sites[0]
+    trs = [tr for tr, part in info.tries if part == "body"]
+    if not trs:
+        return [result(cl["name"], "failed", "boot load is not inside a try")]
+    tr = trs[-1]
+    ok = any("_boot_loaded" in ast.unparse(st) for st in tr.finalbody)
+    return [result(cl["name"], "proved" if ok else "failed",
+                   "" if ok else "state['_boot_loaded'] is no longer set in the `finally` of the boot-load try: a failing loader "
+                                 "re-runs (and resets the graph) on every turn instead of behaving like 'no snapshot'")]
+
+
+R.fclause("C20", "boot-load/flag-set-on-every-outcome", "custom", RT, fn=boot_flag_set_in_finally)
+
+TOTAL_CALLS = {"str", "type", "isinstance", "getattr", "len", "bool", "repr", "dict", "list", "tuple"}
+
+
+def _total(e):
+    """syntactically total expression (cannot raise for any values): see the whitelist"""
+    if isinstance(e, (ast.Constant, ast.Name)):
+        return True
+    if isinstance(e, ast.JoinedStr):
+        return all(_total(v.value) if isinstance(v, ast.FormattedValue) else True for v in e.values)
+    if isinstance(e, ast.IfExp):
+        return _total(e.test) and _total(e.body) and _total(e.orelse)
+    if isinstance(e, ast.BoolOp):
+        return all(_total(v) for v in e.values)
+    if isinstance(e, ast.UnaryOp) and isinstance(e.op, ast.Not):
+        return _total(e.operand)
+    if isinstance(e, ast.Compare):
+        return all(isinstance(o, (ast.Is, ast.IsNot, ast.Eq, ast.NotEq)) for o in e.ops) and _total(e.left) and all(_total(c) for c in e.comparators)
+    if isinstance(e, ast.Attribute):
+        return e.attr == "__name__" and isinstance(e.value, ast.Call) and getattr(e.value.func, "id", None) == "type"
+    if isinstance(e, ast.Call):
+        if isinstance(e.func, ast.Name) and e.func.id in TOTAL_CALLS:
+            if e.func.id == "getattr" and len(e.args) < 3:
+                return False
+            return all(_total(a) for a in e.args) and all(_total(k.value) for k in e.keywords)
+        return False
+    if isinstance(e, ast.Subscript):
+        return isinstance(e.slice, ast.Slice) and _total(e.value)
+    if isinstance(e, (ast.Tuple, ast.List)):
+        return all(_total(x) for x in e.elts)
+    if isinstance(e, ast.Dict):
+        return all(k is not None and _total(k) for k in e.keys) and all(_total(v) for v in e.values)
+    return False
+
+
+def adapter_fallback_total(cl, mod, cls, func):
+    """after a failed LLM adapter construction the turn falls back to the rule-based speaker: every statement of the
+    fallback block other than the speak() call itself is built from total operations only (it sits outside any guard)"""
+    ifs = [n for n in ast.walk(func) if isinstance(n, ast.If) and ast.unparse(n.test) == "adapter is not None"
+           and any("backend_fallback" in ast.unparse(s) for s in n.orelse)]
+    if len(ifs) != 1:
+        return [result(cl["name"], "error", "anchor lost: `if adapter is not None: ... else: <fallback>`")]
+    out = []
+    bad = []
+    for st in ifs[0].orelse:
+        for n in ast.walk(st):
+            if isinstance(n, (ast.Assign, ast.AugAssign, ast.AnnAssign)):
+                v = n.value
+                if isinstance(v, ast.Call) and getattr(v.func, "id", None) == "speak":
+                    continue
+                if v is not None and not _total(v):
+                    bad.append("line %d: %s" % (n.lineno, ast.unparse(v)[:90]))
+            elif isinstance(n, ast.Expr) and not isinstance(n.value, ast.Constant) and not _total(n.value):
+                bad.append("line %d: %s" % (n.lineno, ast.unparse(n.value)[:90]))
+            elif isinstance(n, ast.If) and not _total(n.test):
+                bad.append("line %d: test %s" % (n.lineno, ast.unparse(n.test)[:90]))
+    if bad:
+        return [result(cl["name"], "failed", "unguarded operation that may raise in the adapter-failure fallback: " + "; ".join(bad))]
+    return [result(cl["name"], "proved", where="fallback block uses total operations only")]
+
+
+R.fclause("C20", "llm-adapter/fallback-block-cannot-raise", "custom", RT, fn=adapter_fallback_total)
+
+# ---------------------------------------------------------------- C04: the kill switch in the parallel agent driver's commit phase
+R.fclause("C04", "killswitch/batch-driver-gate:apply_changes", "gate",
+          "clematis/engine/orchestrator/parallel.py:_run_agents_parallel_batch",
+          sites={"call": "apply_changes"}, gate="t4_enabled")
